@@ -507,6 +507,15 @@ func (s *safety) lenLin(x ssa.Value, facts *[]ineq, depth int) lin {
 	if depth > 25 {
 		return s.lenAtom(x, facts)
 	}
+	// an array (or pointer to one) has the length of its type
+	if at, ok := x.Type().Underlying().(*types.Array); ok {
+		return newLin(at.Len())
+	}
+	if pt, ok := x.Type().Underlying().(*types.Pointer); ok {
+		if at, ok := pt.Elem().Underlying().(*types.Array); ok {
+			return newLin(at.Len())
+		}
+	}
 	switch v := x.(type) {
 	case *ssa.Const:
 		if v.Value == nil {
@@ -610,6 +619,30 @@ func (s *safety) classOf(v ssa.Value) ssa.Value {
 	rep := ssa.Value(u)
 	fa, isField := u.X.(*ssa.FieldAddr)
 	cell := s.p.CellRoot(u.X)
+	if cell != nil && !isField {
+		// a variable written once, in the entry block of its function before
+		// anything else happens (a spilled parameter, an initialised local), and
+		// whose address goes nowhere but into function literals: every load of
+		// it, in the function or in a literal that captures it, is that value
+		if st, calls := s.p.CellDefs(cell); len(st) == 1 && len(calls) == 0 && st[0].Parent() == cell.Parent() && st[0].Block() == cell.Parent().Blocks[0] {
+			early := true
+			for _, in := range st[0].Block().Instrs {
+				if in == ssa.Instruction(st[0]) {
+					break
+				}
+				switch in.(type) {
+				case *ssa.Alloc, *ssa.Store:
+				default:
+					early = false
+				}
+			}
+			if early {
+				rep = s.classOf(st[0].Val)
+				s.loadCl[v] = rep
+				return rep
+			}
+		}
+	}
 	for _, b := range fn.Blocks {
 		for _, in := range b.Instrs {
 			u2, ok := in.(*ssa.UnOp)
